@@ -341,8 +341,10 @@ class FilesystemLayout(_BaseLayout[_MaildirT]):
 
     # A sub-folder is a sub-directory of its parent folder, next to the
     # directories and files that the maildir backend keeps in every folder.
+    # An empty part makes no path component: "/a" and "a//b" would be the
+    # folders "a" and "a/b".
     _reserved = frozenset([
-        'new', 'cur', 'tmp', 'maildirfolder', 'subscriptions',
+        '', 'new', 'cur', 'tmp', 'maildirfolder', 'subscriptions',
         'subscriptions.lock', 'dovecot-uidlist', 'dovecot-uidlist.lock',
         'dovecot-keywords', 'dovecot.sieve'])
 
